@@ -292,7 +292,14 @@ impl Monitor for C18 {
                 }
                 "reset_position_range" => {
                     let Some(p) = pre.data(&c.a("position")).and_then(decode::position) else { continue };
-                    let Some(pool) = pre.data(&c.a("whirlpool")).and_then(decode::pool) else { continue };
+                    // the range rules are those of the pool the position belongs to, whatever pool account is passed
+                    let Some(pool) = pre.data(&p.whirlpool).and_then(decode::pool) else { continue };
+                    if c.a("whirlpool") != p.whirlpool {
+                        cov.eval(format!("{}|foreign_pool_passed|ok={}", name, ok));
+                        if ok {
+                            out.push(viol("reset_accepted", ev.idx, format!("reset of a position of pool {} accepted with pool {} in the whirlpool slot", p.whirlpool, c.a("whirlpool"))));
+                        }
+                    }
                     let mut r = c.args();
                     let (lo, hi) = (r.i32(), r.i32());
                     // a reset takes explicit bounds: sentinels are not resolved here
